@@ -117,7 +117,14 @@ func c07Exec(t *testing.T, p *Plan) (*RunResult, *Outcome, []Violation) {
 	if len(out.Infra) > 0 {
 		return res, out, nil
 	}
-	return res, out, oracleC07(res, int(p.Cfg.Extra["tail_from"]))
+	v := oracleC07(res, int(p.Cfg.Extra["tail_from"]))
+	// "carries on from the last committed state": once at rest the witness serves what the store holds, not something a
+	// failed write left behind in memory
+	for _, sv := range servedIsStored(res) {
+		sv.Class, sv.Sig = "false_success", "false_success/served_but_not_stored/"+sv.Sig
+		v = append(v, sv)
+	}
+	return res, out, v
 }
 
 func mergeStats(dst *Stats, src Stats) {
@@ -139,6 +146,31 @@ func init() {
 		Level: "fault_enumeration",
 		Rule:  "per seeded history (first use, growth, refresh, forks presented as first use, stale, bad proof, bad signature; 1..3 logs; in-memory and single-connection SQLite): a fault-free dry run lists every storage call, then EVERY single fault position is executed - interface level (open-for-write, read-latest with 5 non-NotFound error kinds, write, close) or SQL-driver level (begin incl. bad-connection, query, row fetch, exec, commit, rollback) - plus sampled multi-fault patterns (bursts, every other call, everything up to op k) and, on SQLite, VFS-level IOERR / disk-full / short-write windows; each execution ends with a fault-free tail (honest next step per log, then a fork attempt). Oracles: accepted => a fault-free read returns exactly those bytes; failed => store unchanged; commit sequence stays one append-only history (a fork accepted because a failing read looked like 'nothing stored' is the TOFU trap); the tail builds on the last committed state; no wedge (scheduler wedge detection on the one-connection pool), handles opened = closed, sql.DB InUse = 0. evaluations = executions; non-trivial = the injected fault actually fired inside an update; distinct = distinct (call, error kind, op kind, state class, outcome) tuples",
 		Gen: func(r *Rng, tier string, n uint64) *Plan {
+			if n%11 == 10 {
+				// through the add-checkpoint endpoint: a spell of storage errors (low rates, so that little burst is left), then
+				// fault-free honest updates, each after two token periods of silence: they must be served
+				q := scenarios["C10"].Gen(r, tier, n)
+				q.Scenario = "endpoint-after-errors"
+				q.Cfg.Store, q.Cfg.Seam = "sqlite", "driver"
+				q.Cfg.Extra["rate"] = int64(Pick(r, 1, 2, 3, 5, 20))
+				q.Faults = nil
+				nreq := 0
+				for _, o := range q.Ops {
+					if o.K != "jump" {
+						if r.Chance(0.6) {
+							q.Faults = append(q.Faults, Fault{At: fmt.Sprintf("req:%d", nreq), Kind: Pick(r, "Begin", "Query", "Next", "Exec", "Commit") + "/" + drvKind(r)})
+						}
+						nreq++
+					}
+				}
+				q.Cfg.Extra["probe_from"] = int64(len(q.Ops))
+				for l := range q.Cfg.Logs {
+					for k := r.Range(1, 2); k > 0; k-- {
+						q.Ops = append(q.Ops, Op{K: "jump", Ms: 2000/q.Cfg.Extra["rate"] + 2}, Op{K: "update", L: l, B: -1, Sz: "rel1", D: uint64(r.Range(0, 6))})
+					}
+				}
+				return q
+			}
 			pf := Profile{MaxLogs: 3, ShareKeys: true}
 			p := &Plan{Scenario: "W"}
 			mode := n % 4
@@ -201,6 +233,9 @@ func init() {
 			return p
 		},
 		Run: func(t *testing.T, p *Plan) *Outcome {
+			if p.Scenario == "endpoint-after-errors" {
+				return endpointProbes(t, p, "wedge", "wedge/endpoint_refuses_after_storage_errors")
+			}
 			tail := int(p.Cfg.Extra["tail_from"])
 			record := func(out *Outcome, res *RunResult) {
 				for _, r := range res.Hist {
